@@ -18,6 +18,8 @@ import SonicSpec.Generated.Consts
 import SonicSpec.Proofs.Opts
 import SonicSpec.Proofs.OptsSort
 import SonicSpec.Proofs.OptsSkip
+import SonicSpec.Proofs.OptsFinish
+import SonicSpec.Proofs.OptsSetters
 namespace SonicSpec.Props.C18
 open SonicSpec.Gen
 
@@ -136,6 +138,7 @@ theorem wires_injective : (frozeWires.map fun w => (w.2.1, w.2.2.1)).Nodup := by
 example : frozeWires.length = 17 ∧ configFields.length = 16 ∧ setters.length = 13 := by decide
 
 open SonicSpec SonicSpec.Json SonicSpec.Opts
+open SonicSpec.Str (htmlEscape correctWith)
 
 /-! ## Config.Froze as a function: a switch moves exactly its own bits -/
 
@@ -156,9 +159,15 @@ theorem wires_name_fields : Gen.frozeWires.all (fun w => (fieldIdx (wField w)).i
 
 /-! ## Encoder switches on the template model (`Opts.encode`) -/
 
-/-- EscapeHTML (without the UTF-8 post-pass): the output is `HTMLEscape` of the output without the switch,
-    an error stays the same error -/
-theorem escapeHTML_eq_htmlEscape_of_plain (o : EncOpts) (segs : List Seg) (hv : o.validate = false) :
+/-- the two post-passes of `encoder.Encode` commute: HTML escaping then replacement of ill-formed UTF-8 by
+    `\\ufffd` = replacement then escaping, on EVERY byte string -/
+theorem htmlEscape_commutes_with_utf8_correction (s : Bytes) :
+    correctWith replEsc (htmlEscape s) = htmlEscape (correctWith replEsc s) :=
+  (html_correct_comm replEsc replEsc_ok s).symm
+
+/-- EscapeHTML, under every setting of the other switches (ValidateString included): the output is
+    `HTMLEscape` of the output without the switch, an error stays the same error -/
+theorem escapeHTML_eq_htmlEscape (o : EncOpts) (segs : List Seg) :
     encode { o with html := true } segs =
       (match encode { o with html := false } segs with
        | .ok b => .ok (htmlEscape b)
@@ -170,7 +179,17 @@ theorem escapeHTML_eq_htmlEscape_of_plain (o : EncOpts) (segs : List Seg) (hv : 
   generalize encPlain { o with html := false } segs = r
   cases r with
   | error e => rfl
-  | ok b => simp [finish, hv]
+  | ok b =>
+    cases hv : o.validate
+    · simp [finish, hv]
+    · simp [finish, hv, htmlEscape_commutes_with_utf8_correction]
+
+/-- (the special case without the UTF-8 post-pass, kept under its first name) -/
+theorem escapeHTML_eq_htmlEscape_of_plain (o : EncOpts) (segs : List Seg) (_hv : o.validate = false) :
+    encode { o with html := true } segs =
+      (match encode { o with html := false } segs with
+       | .ok b => .ok (htmlEscape b)
+       | .error e => .error e) := escapeHTML_eq_htmlEscape o segs
 
 /-- EscapeHTML in general: `HTMLEscape` is applied to the plain output, before the UTF-8 post-pass -/
 theorem escapeHTML_is_postpass (o : EncOpts) (segs : List Seg) :
@@ -389,6 +408,40 @@ theorem caseSensitive_subset_caseInsensitive (fs : List Bytes) (k : Bytes) :
     (∀ i, findName (fun f => f == k) fs 0 = some i → ∀ cs, matchField cs fs k = some i) :=
   ⟨matchField_caseSensitive_subset fs k, matchField_exact_unaffected fs k⟩
 
+/-! ## Entry points: the setter methods reach the frozen Config -/
+
+/-- For EVERY Config `c`: a fresh `encoder.Encoder` taken through the documented setter calls (each setter with
+    an argument called with the field's value, `SortKeys()` called when SortMapKeys is on) holds exactly the bits
+    `Froze` gives to the switches that have a setter; the same for a fresh `decoder.Decoder`
+    (`UseInt64()`, `UseNumber()`, ... called for the switches that are on) - unless UseInt64 and UseNumber are both
+    on: the setters resolve that (last call wins) while `Froze` sets both bits and `SetOptions` panics.
+    General proof: closed form of a sequence of `(w | set) &^ clear` steps (`foldl_stepW_testBit`), the tables
+    supply only the finite side conditions `enc_table_ok` / `dec_table_ok`. -/
+theorem setters_reach_froze (c : Nat) :
+    runSteps c (resolve "Encoder" encSetterPairs) = (froze c).1 &&& setterMask (resolve "Encoder" encSetterPairs) ∧
+    (¬(fieldOn c "UseInt64" = true ∧ fieldOn c "UseNumber" = true) →
+      runSteps c (resolve "Decoder" decSetterPairs) = (froze c).2 &&& setterMask (resolve "Decoder" decSetterPairs)) :=
+  ⟨runSteps_eq_froze "encoderOpts" (Or.inl rfl) _ enc_table_ok.1 c (fun h => absurd h enc_no_int64),
+   fun H => runSteps_eq_froze "decoderOpts" (Or.inr rfl) _ dec_table_ok.1 c (fun _ => H)⟩
+
+/-- every documented setter method exists in the regenerated table, and the bits that have a setter are the
+    documented ones (all encoder switches but NoNullSliceOrMap / EncodeNullForInfOrNan, all decoder switches but
+    NoValidateJSONSkip / CaseSensitive) -/
+theorem setter_coverage :
+    (resolve "Encoder" encSetterPairs).length = 7 ∧ (resolve "Decoder" decSetterPairs).length = 6 ∧
+    some (Int.ofNat (setterMask (resolve "Encoder" encSetterPairs))) = maskOf "Encoder" ["SortMapKeys", "EscapeHTML", "ValidateString",
+      "NoValidateJSONMarshaler", "NoEncoderNewline", "CompactMarshaler", "NoQuoteTextMarshaler"] ∧
+    some (Int.ofNat (setterMask (resolve "Decoder" decSetterPairs))) = maskOf "Decoder" ["OptionUseInt64", "OptionUseNumber",
+      "OptionUseUnicodeErrors", "OptionDisableUnknown", "OptionCopyString", "OptionValidateString"] := by decide +kernel
+
+/-- a call of a setter through the model function the correspondence uses (`applySetter`, checked against the
+    real methods by `setseq`) is one such step -/
+theorem applySetter_is_step (recv meth : String) (arg : Bool) (w : Nat) (s : Setter)
+    (h : Gen.setters.find? (fun s => s.1 == recv && s.2.1 == meth) = some s) :
+    applySetter recv meth arg w =
+      some (stepW (if arg then (s.2.2.2.1, s.2.2.2.2.1) else (s.2.2.2.2.2.1, s.2.2.2.2.2.2)) w) :=
+  applySetter_eq_stepW recv meth arg w s h
+
 /-! ## CopyString / NoValidateJSONSkip: no result changes on valid data -/
 
 /-- NoValidateJSONSkip: whenever skipping an array / object WITH validation succeeds (the value is well-formed),
@@ -422,6 +475,10 @@ example : anyNum .int64 [57, 50, 50, 51, 51, 55, 50, 48, 51, 54, 56, 53, 52, 55,
 -- `[1,"]"]x`: both skippers stop before `x`; `[1 2]x`: only the non-validating one accepts
 example : skipContainer false [91, 49, 44, 34, 93, 34, 93, 120] = some [120] ∧ skipContainer true [91, 49, 44, 34, 93, 34, 93, 120] = some [120] ∧
     skipContainer false [91, 49, 32, 50, 93, 120] = none ∧ skipContainer true [91, 49, 32, 50, 93, 120] = some [120] := by decide
+-- UseInt64 + UseNumber (fields 5 and 6): the setters leave UseNumber alone on, Froze sets both bits
+example : runSteps 96 (resolve "Decoder" decSetterPairs) = (froze 64).2 ∧ (froze 96).2 ≠ (froze 64).2 ∧
+    runSteps 32 (resolve "Decoder" decSetterPairs) = (froze 32).2 ∧
+    runSteps 1027 (resolve "Encoder" encSetterPairs) = (froze 1027).1 := by decide
 example : (froze 0 = (0, 0)) ∧ (froze (flipSwitch 0 10)).1 = 32 ∧ (froze (flipSwitch 0 10)).2 = 32 := by decide
 
 end SonicSpec.Props.C18
